@@ -379,7 +379,10 @@ def entry_points(acc):
                 # the last two: directories outside root_path whose spelling STARTS with root_path ('..' components)
                 dotted_other = os.path.join(root, os.pardir, os.path.relpath(other, os.path.dirname(root)))
                 dotted_parent = os.path.join(root, "sub", os.pardir, os.pardir)
-                for mp in (root, os.path.join(root, "sub"), other, os.path.dirname(root), dotted_other, dotted_parent):
+                # ... and the everyday typo: a sibling of root_path that does not exist (and something below it)
+                typo = os.path.join(os.path.dirname(root), "porj")
+                typo_sub = os.path.join(os.path.dirname(root), "proj_v2", "sub")
+                for mp in (root, os.path.join(root, "sub"), other, os.path.dirname(root), dotted_other, dotted_parent, typo, typo_sub):
                     kw = {"exclude_external_libraries": excl_ext}
                     for i, (k, v) in enumerate(opts.items()):
                         if mask >> i & 1:
@@ -465,6 +468,25 @@ def misspelt(spec, acc):
 
         HUB.case = {"kind": "misspelt", "mods": mods, "imps": imps, "limit": limit, "cfg": cfg}
         run(mk_rule(cfg), evl)
+        batch_side = next((sd for sd in ("subs", "objs") if len(cfg[sd]) > 1 and any(n == bad or n not in present for _k, n in cfg[sd])), None)
+        if batch_side and fk != "regex":
+            # the batch as a one-shot iterable that yields the absent name FIRST: the name must still be looked up
+            from ..drive import rule_steps
+
+            c2 = dict(cfg)
+            c2[batch_side] = sorted(cfg[batch_side], key=lambda kn: kn[1] in present)
+            form = rnd.choice(["generator", "map", "tuple"])
+            from pytestarch import Rule
+
+            robj = None
+            for name_, args_ in rule_steps(c2, form):
+                robj = Rule() if name_ == "Rule" else getattr(robj, name_)(*args_)
+            HUB.case = {"kind": "misspelt", "mods": mods, "imps": imps, "limit": limit, "cfg": c2, "container": form}
+            o_alt, _m = run(robj, evl)
+            acc.evaluated()
+            acc.count("batches_with_the_misspelt_member_first_in_another_container")
+            if o_alt in ("pass", "fail"):
+                HUB.violation("C13", f"unknown-module-verdict:batch-as-{form}", f"a batch given as a {form} whose first member does not exist in the architecture produced the verdict '{o_alt}'", {"cfg": c2, "present": sorted(present)})
         if limit is None and fk != "regex" and rnd.random() < 0.5:
             # the same rule OBJECT is first applied to an architecture in which every name exists (a newer version of the
             # project, say) and then to this one: the absent name must be noticed on every application
@@ -720,7 +742,7 @@ def floors(acc, tier):
         for c in need:
             if acc.hists.get(hist, {}).get(c, 0) == 0:
                 why.append(f"{hist}: class {c} never observed")
-    for c, n in (("c13_rule_evaluations", 5000), ("c13_layer_evaluations", 500), ("c13_diagram_evaluations", 50), ("c13_entry_point_invalid_calls", 50), ("c13_unknown_module_evaluations", 300), ("c13_unmatched_regex_evaluations", 50), ("c13_calls_that_must_raise", 100), ("several_patterns_one_unmatched", 50), ("c13_diagram_unknown_component_evaluations", 50), ("diagram_rules_reconfigured_after_application", 50), ("batches_with_one_misspelt_member", 50), ("anything_batches_with_one_misspelt_member", 10), ("rule_histories_with_an_empty_batch", 50), ("big_diagrams_with_an_absent_component", 5), ("rule_objects_with_an_absent_name_first_applied_where_it_exists", 50)):
+    for c, n in (("c13_rule_evaluations", 5000), ("c13_layer_evaluations", 500), ("c13_diagram_evaluations", 50), ("c13_entry_point_invalid_calls", 50), ("c13_unknown_module_evaluations", 300), ("c13_unmatched_regex_evaluations", 50), ("c13_calls_that_must_raise", 100), ("several_patterns_one_unmatched", 50), ("c13_diagram_unknown_component_evaluations", 50), ("diagram_rules_reconfigured_after_application", 50), ("batches_with_one_misspelt_member", 50), ("anything_batches_with_one_misspelt_member", 10), ("rule_histories_with_an_empty_batch", 50), ("big_diagrams_with_an_absent_component", 5), ("rule_objects_with_an_absent_name_first_applied_where_it_exists", 50), ("batches_with_the_misspelt_member_first_in_another_container", 30)):
         if acc.counters[c] < n:
             why.append(f"{c}: only {acc.counters[c]}")
     acc.flags["exhaustive"] = all(acc.flags.get(f) for f in ("exhaustive_rule_sequences", "exhaustive_layer_sequences", "exhaustive_mutations", "exhaustive_entry_options"))
